@@ -87,7 +87,7 @@ def stmt_window(draw, kinds=('repo',), max_stmts=6, max_lines=60):
 # ---- (c) lexically rich hand-written programs -----------------------------------------------------
 
 NAMES = st.sampled_from(['x', 'y', 'foo', 'a1', '_', '__x__', 'é', 'Ünï', '名前', 'self', 'value', 'i', 'n', 'match', 'case', 'type'])
-NUMBERS = st.sampled_from(['0', '1', '10', '1_0', '0_0', '0x1f', '0X1F', '0o17', '0O7', '0b101', '0B1', '1.', '.5', '1.5', '1e5', '1E-5',
+NUMBERS = st.sampled_from(['09e1', '09j', '007J', '01j', '0_1j', '08e+3', '010e1j', '00_7E-2J', '09.5', '1.5j', '1.J', '.5j', '1e3j', '2.5E-3J', '0', '1', '10', '1_0', '0_0', '0x1f', '0X1F', '0o17', '0O7', '0b101', '0B1', '1.', '.5', '1.5', '1e5', '1E-5',
                            '1.e5j', '1j', '1J', '1_000.000_1', '0.0', '00', '1e+3', '0xdead_beef', '9' * 25, '1_0j', '0e0', '.1e-1_0'])
 STRINGS = st.builds(
     lambda p, q, body: p + q + body + q,
@@ -98,7 +98,7 @@ FSTRINGS = st.builds(
     lambda p, q, parts: p + q + ''.join(parts) + q,
     st.sampled_from(['f', 'F', 'rf', 'fr', 'Rf', 'FR']),
     st.sampled_from(['"', "'", '"""', "'''"]),
-    st.lists(st.sampled_from(['a', ' ', '{x}', '{x!r}', '{x:>10}', '{x:{w}}', '{{', '}}', '{x + 1}', '{x.y}', '{x[0]}', '{x!s:^{w}.{p}}',
+    st.lists(st.sampled_from(['{x:\\t<10}', '{x!r:\\x20>8}', '{x:{w}\\n}', '\\n', '{x:\\N{BULLET}^9}', 'a', ' ', '{x}', '{x!r}', '{x:>10}', '{x:{w}}', '{{', '}}', '{x + 1}', '{x.y}', '{x[0]}', '{x!s:^{w}.{p}}',
                               '{f(x)}', '{x,}', '{(lambda: 1)()}', '{x if y else z}', '{x:%Y-%m}', '{3.14:10.10}', '{x = }', '{x=!r}']),
              max_size=4))
 ATOMS = st.one_of(NAMES, NAMES, NUMBERS, STRINGS, FSTRINGS, st.sampled_from(['None', 'True', 'False', '...', '()', '[]', '{}', '(x,)',
@@ -130,6 +130,8 @@ def exprs(depth=3):
         st.builds(lambda a, b: '(%s for %s in y for z in %s)' % (a, b, b), sub, NAMES),
         st.builds(lambda a, b: '(lambda %s, *a, k=1, **kw: %s)' % (b, a), sub, NAMES),
         st.builds(lambda a, b: '(%s,\n    %s)' % (a, b), sub, sub),
+        st.builds(lambda f, a, b, c: '%s(\n    %s,\n    %s,\n    %s,\n)' % (f, a, b, c), NAMES, NAMES, sub, NAMES),
+        st.builds(lambda a, b: '[\n%s,\n  %s\n]' % (a, b), NAMES, sub),
         st.builds(lambda a, b: '%s \\\n    + %s' % (a, b), sub, sub),
     )
 
@@ -153,7 +155,8 @@ def stmts(depth=2):
         st.builds(lambda n: 'del %s, y[0], z.a\n' % n, NAMES),
         st.builds(lambda n, m: 'import %s.%s as q\n' % (n, m), st.sampled_from(['os', 'a', 'pkg']), st.sampled_from(['path', 'b', 'mod'])),
         st.builds(lambda n, m: 'from .%s import (%s as r,\n    s)\n' % (n, m), st.sampled_from(['', 'a', '.a.b']), st.sampled_from(['x', 'y'])),
-        st.just('from . import *\n'), st.just('from __future__ import annotations\n'), st.just('pass\n'),
+        st.just('from . import *\n'), st.just('import numpy as np, pathlib\n'), st.just('import a.b as c, d.e, f as g, h\n'),
+        st.just('from a import (b as c, d, e as f)\n'), st.just('from __future__ import annotations\n'), st.just('pass\n'),
         st.builds(lambda a, b: 'x = 1; %s; y = 2\n' % a.strip(), e, e),
         st.builds(lambda v: 'raise E(%s) from None\n' % v, e),
         st.builds(lambda v: 'print(%s)  # comment\n' % v, e),
@@ -174,6 +177,9 @@ def stmts(depth=2):
         st.builds(lambda n, r, b, u: '@dec\n@d.e(1)\ndef %s(a, b: int = 1, *args, c, d=%s, **kw) -> "r":\n%s' % (n, r, _indent('"""doc"""\n' + b + 'return a\n', u)), NAMES, e, sub, unit),
         st.builds(lambda n, b, u: 'def %s(a, /, b, *, c):\n%s' % (n, _indent(b + 'yield a\nyield from b\n', u)), NAMES, sub, unit),
         st.builds(lambda n, b, u: 'async def %s(a):\n%s' % (n, _indent(b + 'await a\nasync for i in a:\n    pass\nasync with a as b:\n    pass\nreturn [i async for i in a]\n', u)), NAMES, sub, unit),
+        st.builds(lambda n, b, u: 'async def %s(a, /, b=1):\n%s' % (n, _indent('async with a as c:\n    if c:\n        return 1\n    raise E\nasync for i in a:\n    return i\nelse:\n    raise F\n' + b + 'return 3\n', u)), NAMES, sub, unit),
+        st.builds(lambda n, b, u: 'def %s(a, b=1, /):\n%s' % (n, _indent(b + 'return (lambda x, /, y=2: x)(a)\n', u)), NAMES, sub, unit),
+        st.builds(lambda b, u: 'for q in z:\n%s' % _indent('try:\n    pass\nfinally:\n    continue\n' + b, u), sub, unit),
         st.builds(lambda n, b, u: 'class %s(Base, metaclass=M):\n%s' % (n, _indent('"doc"\nx: int = 1\n' + b, u)), NAMES, sub, unit),
         st.builds(lambda n, b, u: 'def %s():\n%s' % (n, _indent('global g1, g2\ng1 = 1\ndef inner():\n    nonlocal v\n    v = 2\nv = 1\n' + b, u)), NAMES, sub, unit),
         st.builds(lambda n, v, u: 'if (%s := %s) > 1:\n%s' % (n, v, _indent('pass\n', u)), st.sampled_from(['x', 'y', 'n']), e, unit),
